@@ -24,7 +24,7 @@ Theorem C15_spawn_decisions_total : forall r ns h, runner_wf r -> hm_wf r h ->
                         (forall x, r_chunk r = RExact x -> c = x) /\
                         (exists k, 1 <= k /\ c = k * r_inner (r_chunk r))
             end.
-Proof. intros r ns h Hw Hh. split; [exact (do_spawn_total ns h Hw) | exact (next_chunk_size_total ns Hw Hh)]. Qed.
+Proof. intros r ns h Hw Hh. split; [apply do_spawn_total; exact Hw | apply next_chunk_size_total; assumption]. Qed.
 Print Assumptions C15_spawn_decisions_total.
 
 (** non-vacuity: a concrete non-trivial configuration meets the hypotheses *)
